@@ -216,6 +216,15 @@ Theorem C12_calls_fold_independently : forall calls tbl names t n ps,
 Proof. exact calls_fold_independently. Qed.
 Print Assumptions C12_calls_fold_independently.
 
+(* SCOPE NOTE (binding forms).  The theorems above are about the folder GIVEN its operand
+   constants (literals, casts T(a), -T(a), x := E, helper parameters).  The other ways a
+   constant reaches a folded operator — var x T; x = c / var x T = c / re-assignment /
+   via another constant-bound name / package-level const / struct field / array element /
+   function argument / function result / op-assignment / loop variable — are OUTSIDE the
+   Coq model: LRValue.Set, VariableDef, Assign are not modelled.  They are tied by the
+   harness only (harness/c12bind.go): every form, boundary values at the declared width,
+   fold == circuit oracle, keys c12:fold:binding-form:<form>:<op>:<type>:... . *)
+
 (* STATE INVENTORY (finite obligation on the model regenerated from the source, checked by
    computation).  The struct fields and package-level variables of the Go packages this
    property is anchored in — compiler/ast, compiler/mpa, compiler/ssa — as emitted from /repo's current
